@@ -4,6 +4,7 @@ import (
 	"fmt"
 	"go/types"
 	"math/big"
+	"os"
 	"sort"
 	"strings"
 	"sync"
@@ -16,7 +17,61 @@ import (
 type Decision struct {
 	Val    int64
 	Forced bool // only one alternative was feasible: nothing was added to the PC
-	Kind   byte // 'b' branch, 'v' value
+	Kind   byte // 'b' branch, 'v' value, 'c' choice, 'm' merged sub-exploration
+	Sub    [][]Decision
+}
+
+// dstream is a decision stream: the main path's, or that of one run of a
+// merged sub-exploration.
+type dstream struct {
+	prefix []Decision
+	pos    int
+	log    []Decision
+	work   *[][]Decision // nil: alternatives go to the engine's global worklist
+	strict bool          // replaying a recorded sub-run: no new decisions may appear
+	dead   bool          // replaying a sub-run that ended infeasible: it ends where its log ends
+	newDec int
+}
+
+func (p *Path) replaying() bool {
+	if p.ds.pos < len(p.ds.prefix) {
+		return true
+	}
+	if p.ds.dead {
+		panic(pathDone{"recorded infeasible sub-run"})
+	}
+	return false
+}
+
+func (p *Path) takeReplay() Decision {
+	d := p.ds.prefix[p.ds.pos]
+	p.ds.pos++
+	p.ds.log = append(p.ds.log, d)
+	return d
+}
+
+func (p *Path) record(d Decision) {
+	if p.ds.strict {
+		panic(abort("engine: nondeterministic re-execution of a merged call"))
+	}
+	p.ds.log = append(p.ds.log, d)
+	p.ds.pos++
+}
+
+func (p *Path) fork(d Decision) {
+	alt := append(append([]Decision(nil), p.ds.log...), d)
+	if p.ds.work != nil {
+		*p.ds.work = append(*p.ds.work, alt)
+		return
+	}
+	p.eng.push(alt)
+}
+
+func (p *Path) decisionBudget() {
+	if p.ds.newDec >= p.eng.Cfg.MaxDecisions {
+		panic(abort(fmt.Sprintf("unwind: more than %d symbolic decisions on one path", p.eng.Cfg.MaxDecisions)))
+	}
+	p.ds.newDec++
 }
 
 // Input is one symbolic input created by a zz* intrinsic, for replay vectors.
@@ -71,6 +126,8 @@ type Engine struct {
 	active      int
 	cond        *sync.Cond
 	Paths       int
+	Merged      int
+	MergeStats  map[string][2]int
 	Steps       int64
 	Obligations int
 	Discharged  int
@@ -102,9 +159,10 @@ func NewEngine(prog *ssa.Program, cfg Config) *Engine {
 func (e *Engine) resetRun() {
 	e.work = nil
 	e.active = 0
-	e.Paths, e.Steps, e.Obligations, e.Discharged, e.Trivial = 0, 0, 0, 0, 0
+	e.Paths, e.Steps, e.Obligations, e.Discharged, e.Trivial, e.Merged = 0, 0, 0, 0, 0, 0
 	e.Violations = nil
 	e.Incon = map[string]int{}
+	e.MergeStats = map[string][2]int{}
 	e.Reached = map[string]int{}
 	e.Witness = map[string]map[string][]interface{}{}
 	e.Funcs = map[string]bool{}
@@ -148,7 +206,11 @@ func (e *Engine) lookupIntercept(fn *ssa.Function, name string) Intercept {
 		return ic
 	}
 	if strings.HasPrefix(fn.Name(), "zz") {
-		if ic, ok := e.intercepts["zz:"+fn.Name()]; ok {
+		n := fn.Name()
+		if o := fn.Origin(); o != nil {
+			n = o.Name()
+		}
+		if ic, ok := e.intercepts["zz:"+n]; ok {
 			return ic
 		}
 	}
@@ -157,35 +219,37 @@ func (e *Engine) lookupIntercept(fn *ssa.Function, name string) Intercept {
 
 // Path is one execution along a decision log.
 type Path struct {
-	eng        *Engine
-	prefix     []Decision
-	log        []Decision
-	pos        int
-	pc         []*smt.T
-	asserted   int
-	fresh      bool
-	solver     *smt.Solver
-	globals    map[*ssa.Global]*Value
-	inited     map[*ssa.Package]bool
-	symSeq     map[string]int
-	inputs     []Input
-	steps      int64
-	depth      int
-	redirects  map[string]Value
-	inRedirect map[string]bool
-	ghost      map[string]interface{}
-	hashApps   []*hashApp
-	tasks      []*Task
-	cur        *Task
-	dead       bool
-	endSignal  interface{}
-	chanSeq    int
-	eventSeq   int
-	preempt    int
-	unknown    bool
-	clock      *smt.T
-	newDec     int
-	trace      []string
+	eng         *Engine
+	ds          *dstream
+	pc          []*smt.T
+	asserted    int
+	fresh       bool
+	solver      *smt.Solver
+	globals     map[*ssa.Global]*Value
+	inited      map[*ssa.Package]bool
+	symSeq      map[string]int
+	inputs      []Input
+	steps       int64
+	depth       int
+	redirects   map[string]Value
+	inRedirect  map[string]bool
+	ghost       map[string]interface{}
+	hashApps    []*hashApp
+	tasks       []*Task
+	cur         *Task
+	dead        bool
+	endSignal   interface{}
+	chanSeq     int
+	eventSeq    int
+	preempt     int
+	memo        map[string]*memoEntry
+	allVars     []*smt.T
+	model       map[string]*big.Int
+	summarize   map[string]bool
+	inSummaryOf map[string]bool
+	unknown     bool
+	clock       *smt.T
+	trace       []string
 }
 
 func (p *Path) freshName(base string) (string, int) {
@@ -199,6 +263,31 @@ func (p *Path) addPC(c *smt.T) {
 		return
 	}
 	p.pc = append(p.pc, c)
+	if p.model != nil && evalTerm(c, p.model).Sign() == 0 {
+		p.model = nil
+	}
+}
+
+// noteImplied keeps the cached model honest for a condition that the PC
+// implies (nothing is added to the PC).
+func (p *Path) noteImplied(c *smt.T) {
+	if p.model != nil && evalTerm(c, p.model).Sign() == 0 {
+		p.model = nil
+	}
+}
+
+func (p *Path) regVar(t *smt.T) *smt.T {
+	p.allVars = append(p.allVars, t)
+	if p.model != nil {
+		// extend the cached model: any in-range value will do, later
+		// constraints are checked against it by addPC
+		v := int64(0)
+		if t.Sort == smt.Int && !t.LoInf {
+			v = t.Lo
+		}
+		p.model[t.Name] = big.NewInt(v)
+	}
+	return t
 }
 
 // syncSolver makes the solver's assertion stack equal to the PC.
@@ -237,8 +326,9 @@ func (p *Path) Assume(c *smt.T) {
 		return
 	}
 	p.addPC(c)
-	if p.pos < len(p.prefix) {
-		return // replaying: known feasible
+	if p.replaying() {
+		p.takeReplay() // replaying: known feasible
+		return
 	}
 	r, _ := p.check(nil, nil)
 	if r == smt.Unsat {
@@ -247,6 +337,7 @@ func (p *Path) Assume(c *smt.T) {
 	if r == smt.Unknown {
 		p.unknown = true
 	}
+	p.record(Decision{Kind: 'a', Forced: true})
 }
 
 // Branch decides a symbolic condition, forking the exploration if both sides
@@ -255,10 +346,8 @@ func (p *Path) Branch(c *smt.T) bool {
 	if v, ok := c.BoolVal(); ok {
 		return v
 	}
-	if p.pos < len(p.prefix) {
-		d := p.prefix[p.pos]
-		p.pos++
-		p.log = append(p.log, d)
+	if p.replaying() {
+		d := p.takeReplay()
 		take := d.Val == 1
 		if !d.Forced {
 			if take {
@@ -269,15 +358,31 @@ func (p *Path) Branch(c *smt.T) bool {
 		}
 		return take
 	}
-	if p.newDec >= p.eng.Cfg.MaxDecisions {
-		panic(abort(fmt.Sprintf("unwind: more than %d symbolic decisions on one path", p.eng.Cfg.MaxDecisions)))
-	}
-	rt, _ := p.check(c, nil)
-	var rf smt.Result
-	if rt == smt.Unsat {
-		rf = smt.Sat // PC is feasible, so the other side must be
+	var rt, rf smt.Result
+	if p.model != nil {
+		// the cached model of the PC decides one side for free
+		if evalTerm(c, p.model).Sign() != 0 {
+			rt = smt.Sat
+			rf, _ = p.check(smt.Not(c), nil)
+		} else {
+			rf = smt.Sat
+			var m map[string]*big.Int
+			rt, m = p.check(c, p.allVars)
+			if rt == smt.Sat {
+				p.model = m // we continue on the true side
+			}
+		}
 	} else {
-		rf, _ = p.check(smt.Not(c), nil)
+		var m map[string]*big.Int
+		rt, m = p.check(c, p.allVars)
+		if rt == smt.Unsat {
+			rf = smt.Sat // PC is feasible, so the other side must be
+		} else {
+			rf, _ = p.check(smt.Not(c), nil)
+			if rt == smt.Sat {
+				p.model = m
+			}
+		}
 	}
 	if rt == smt.Unknown || rf == smt.Unknown {
 		p.unknown = true
@@ -289,19 +394,17 @@ func (p *Path) Branch(c *smt.T) bool {
 	case rt == smt.Unsat && rf == smt.Unsat:
 		panic(pathDone{"path condition infeasible"})
 	case rt == smt.Unsat:
-		p.log = append(p.log, Decision{Val: 0, Forced: true, Kind: 'b'})
-		p.pos++
+		p.record(Decision{Val: 0, Forced: true, Kind: 'b'})
+		p.noteImplied(smt.Not(c))
 		return false
 	case rf == smt.Unsat:
-		p.log = append(p.log, Decision{Val: 1, Forced: true, Kind: 'b'})
-		p.pos++
+		p.record(Decision{Val: 1, Forced: true, Kind: 'b'})
+		p.noteImplied(c)
 		return true
 	}
-	alt := append(append([]Decision(nil), p.log...), Decision{Val: 0, Kind: 'b'})
-	p.eng.push(alt)
-	p.log = append(p.log, Decision{Val: 1, Kind: 'b'})
-	p.pos++
-	p.newDec++
+	p.decisionBudget()
+	p.fork(Decision{Val: 0, Kind: 'b'})
+	p.record(Decision{Val: 1, Kind: 'b'})
 	p.addPC(c)
 	return true
 }
@@ -312,13 +415,9 @@ func (p *Path) concInt(t *smt.T, lo, hi int64) int64 {
 	if v, ok := t.Int64(); ok {
 		return v
 	}
-	if p.pos < len(p.prefix) {
-		d := p.prefix[p.pos]
-		p.pos++
-		p.log = append(p.log, d)
-		if !d.Forced {
-			p.addPC(smt.Eq(t, smt.I(d.Val)))
-		}
+	if p.replaying() {
+		d := p.takeReplay()
+		p.addPC(smt.Eq(t, smt.I(d.Val)))
 		return d.Val
 	}
 	if !t.LoInf && t.Lo > lo {
@@ -354,22 +453,16 @@ func (p *Path) concInt(t *smt.T, lo, hi int64) int64 {
 	}
 	sort.Slice(vals, func(i, j int) bool { return vals[i] < vals[j] })
 	if len(vals) == 1 {
-		p.log = append(p.log, Decision{Val: vals[0], Forced: true, Kind: 'v'})
-		p.pos++
+		p.record(Decision{Val: vals[0], Forced: true, Kind: 'v'})
 		// the value is implied but later code wants the equality syntactically
 		p.addPC(smt.Eq(t, smt.I(vals[0])))
 		return vals[0]
 	}
-	if p.newDec >= p.eng.Cfg.MaxDecisions {
-		panic(abort(fmt.Sprintf("unwind: more than %d symbolic decisions on one path", p.eng.Cfg.MaxDecisions)))
-	}
+	p.decisionBudget()
 	for _, v := range vals[1:] {
-		alt := append(append([]Decision(nil), p.log...), Decision{Val: v, Kind: 'v'})
-		p.eng.push(alt)
+		p.fork(Decision{Val: v, Kind: 'v'})
 	}
-	p.log = append(p.log, Decision{Val: vals[0], Kind: 'v'})
-	p.pos++
-	p.newDec++
+	p.record(Decision{Val: vals[0], Kind: 'v'})
 	p.addPC(smt.Eq(t, smt.I(vals[0])))
 	return vals[0]
 }
@@ -426,7 +519,7 @@ func (p *Path) Obligation(fr *Frame, cond *smt.T, label, kind, msg string) {
 	case smt.Unknown:
 		e.Incon["solver-unknown at obligation "+label]++
 	case smt.Sat:
-		v := Violation{Label: label, Kind: kind, Msg: msg, Vector: p.vectorFull(m), Log: append([]Decision(nil), p.log...), Harness: e.Harness}
+		v := Violation{Label: label, Kind: kind, Msg: msg, Vector: p.vectorFull(m), Log: append([]Decision(nil), p.ds.log...), Harness: e.Harness}
 		if fr != nil {
 			v.Pos = fr.posHere()
 		}
@@ -505,28 +598,28 @@ func (p *Path) initPkg(pkg *ssa.Package) {
 
 // packages whose init is replaced by models or is irrelevant and expensive
 var skipInit = map[string]bool{
-	"unicode":         true,
-	"runtime":         true,
-	"os":              true,
-	"syscall":         true,
-	"reflect":         true,
-	"internal/cpu":    true,
-	"regexp/syntax":   true,
-	"crypto/sha256":   true,
-	"crypto/sha512":   true,
-	"crypto":          true,
-	"time":            true,
-	"net/http":        true,
-	"net":             true,
-	"log/slog":        true,
-	"log":             true,
-	"encoding/json":   true,
-	"html/template":   true,
-	"text/template":   true,
-	"crypto/tls":      true,
-	"crypto/x509":     true,
-	"math/rand":       true,
-	"mime":            true,
+	"unicode":               true,
+	"runtime":               true,
+	"os":                    true,
+	"syscall":               true,
+	"reflect":               true,
+	"internal/cpu":          true,
+	"regexp/syntax":         true,
+	"crypto/sha256":         true,
+	"crypto/sha512":         true,
+	"crypto":                true,
+	"time":                  true,
+	"net/http":              true,
+	"net":                   true,
+	"log/slog":              true,
+	"log":                   true,
+	"encoding/json":         true,
+	"html/template":         true,
+	"text/template":         true,
+	"crypto/tls":            true,
+	"crypto/x509":           true,
+	"math/rand":             true,
+	"mime":                  true,
 	"golang.org/x/sys/unix": true,
 }
 
@@ -553,6 +646,12 @@ func (e *Engine) Run(entry *ssa.Function) {
 			if err != nil {
 				e.incon("solver-start: " + err.Error())
 				return
+			}
+			if d := os.Getenv("GOSYM_LOG"); d != "" {
+				if f, err := os.CreateTemp(d, "solver-*.smt2"); err == nil {
+					s.Log = f
+					defer f.Close()
+				}
 			}
 			defer func() {
 				e.mu.Lock()
@@ -598,13 +697,14 @@ func (e *Engine) Run(entry *ssa.Function) {
 
 func (e *Engine) newPath(prefix []Decision, s *smt.Solver) *Path {
 	return &Path{
-		eng: e, prefix: prefix, solver: s,
+		eng: e, ds: &dstream{prefix: prefix}, solver: s,
 		globals:    map[*ssa.Global]*Value{},
 		inited:     map[*ssa.Package]bool{},
 		symSeq:     map[string]int{},
 		redirects:  map[string]Value{},
 		inRedirect: map[string]bool{},
 		ghost:      map[string]interface{}{},
+		summarize:  map[string]bool{},
 	}
 }
 
